@@ -377,6 +377,73 @@ def iflet_to_match(raw):
     return raw, n
 
 
+_SWAP = {"Eq": "Eq", "Ne": "Ne", "Lt": "Gt", "Gt": "Lt", "Le": "Ge", "Ge": "Le"}
+
+
+def swap_cmp(raw):
+    """`a < b` -> `b > a`, `a == b` -> `b == a` when both operands are free of calls (evaluation order is immaterial)"""
+    n = 0
+    for crate in raw.values():
+        for h in crate["hir"]:
+            if "body" not in h:
+                continue
+            for x in _walk_nodes(h["body"]):
+                if x.get("k") == "Binary" and x.get("op") in _SWAP and not x.get("x") and "callee" not in x and \
+                        _pure(x.get("l")) and _pure(x.get("r")):
+                    x["l"], x["r"] = x["r"], x["l"]
+                    x["op"] = _SWAP[x["op"]]
+                    n += 1
+    return raw, n
+
+
+def _pure(e):
+    if not isinstance(e, dict):
+        return False
+    for y in _walk_nodes(e):
+        if y.get("k") in ("Call", "Closure", "Match", "If", "Assign", "AssignOp", "Block"):
+            return False
+        if y.get("k") == "MethodCall" and y.get("m") not in ("len", "is_empty", "start", "end", "as_bytes", "as_str", "as_ref", "get_type"):
+            return False
+    return True
+
+
+def hoist_closures(raw):
+    """`x.map(|a| ..)` in statement position -> `let __f = |a| ..; x.map(__f)` (closure arguments only)"""
+    n = 0
+    for crate in raw.values():
+        for h in crate["hir"]:
+            if "body" not in h:
+                continue
+            for b in list(_walk_blocks(h["body"])):
+                out = []
+
+                def treat(e):
+                    nonlocal n
+                    c = _call_in(e)
+                    while c is not None:
+                        new_args = []
+                        for a in c.get("args", []):
+                            if isinstance(a, dict) and _strip_block(a).get("k") == "Closure" and a.get("ty"):
+                                new_args.append(_named(out, a, "f"))
+                                n += 1
+                            else:
+                                new_args.append(a)
+                        c["args"] = new_args
+                        # walk down the receiver chain: `a.iter().map(|x| ..).collect()`
+                        r = _strip_block(c["recv"]) if c.get("k") == "MethodCall" and isinstance(c.get("recv"), dict) else None
+                        c = r if r is not None and r.get("k") == "MethodCall" and not r.get("x") else None
+                for st in b.get("stmts", []):
+                    if st.get("k") in ("SSemi", "SExpr"):
+                        treat(st.get("e"))
+                    elif st.get("k") == "SLet" and "els" not in st:
+                        treat(st.get("init"))
+                    out.append(st)
+                if isinstance(b.get("expr"), dict):
+                    treat(b["expr"])
+                b["stmts"] = out
+    return raw, n
+
+
 def const_lits(raw):
     """char / byte / string / integer literals written in a function (expressions and patterns, not macro expansions) are
     replaced by private constants holding them: `'"'` -> `QUOTE`, `128` -> `DEFAULT_DEPTH`"""
@@ -417,4 +484,4 @@ def const_lits(raw):
 MODES = {"named_tail": named_tail, "early_return": early_return, "bind_cond": bind_cond,
          "negate_if": negate_if, "reverse_arms": reverse_arms, "hoist_args": hoist_args,
          "letelse_to_match": letelse_to_match, "match_to_iflet": match_to_iflet, "iflet_to_match": iflet_to_match,
-         "const_lits": const_lits}
+         "const_lits": const_lits, "swap_cmp": swap_cmp, "hoist_closures": hoist_closures}
